@@ -66,7 +66,8 @@ def run(ctx):
     cap = 400 if ctx.thorough else 60           # histories per (instance, configuration)
     hseeds = list(range(4)) if ctx.thorough else [0, 1]
     confs = [("ve", "str", "numpy"), ("bp", "str", "numpy"), ("ci", "str", "numpy"), ("ve", "int", "numpy"), ("ve", "tuple", "numpy"),
-             ("bp", "int", "numpy"), ("ve", "str", "torch"), ("bp", "str", "torch")]
+             ("bp", "int", "numpy"), ("ci", "int", "numpy"), ("ci", "tuple", "numpy"), ("bp", "tuple", "numpy"),
+             ("ve", "str", "torch"), ("bp", "str", "torch"), ("ci", "str", "torch")]
     for be in ("numpy", "torch"):
         pl = []
         for hs in hseeds:
